@@ -11,6 +11,9 @@ import Bng.Model.NatKern
     dealloc <hexip>     => ok [s-=<key>] [x-=<key>…] [r-=<key>…] [e-=<key>…]     predicted by the model
     pkt egress|ingress <hexframe>   => <verdict> same|<hexframe-after>[ ev=N]      predicted by the model
     maps                => x=… r=… e=… s=…                                         predicted by the model
+    fault on|off        => ok       every Put / Delete of the manager on subscriber_nat fails: `alloc` of an address without
+                                    block answers `err …` and writes nothing; `dealloc` of an address with a block answers
+                                    `err kernel-write-failed` and removes NOTHING (model: `deallocFail`)
 
   Monitors (on the implementation's observations):
     kern-overlap     a block written by AllocateNAT overlaps the block of another live subscriber_nat entry
@@ -27,6 +30,7 @@ open Bng.Drv.Nat44Drv (le le16 le32 parseNatKey parseEimKey)
 structure St where
   started : Bool := false
   maps : Maps := {}
+  fault : Bool := false
 
 def sortStrings (xs : List String) : List String := (xs.toArray.qsort (· < ·)).toList
 
@@ -109,11 +113,20 @@ def step (st : St) (toks : List String) (impl : String) : St × LineResult :=
     match tokenArg "eim=" args with
     | some e => ({ started := true, maps := { cfg := some (if e == "1" then 1 else 0) } }, { modelObs := "ok" })
     | none => (st, { modelObs := "badop" })
+  | ["fault", f] =>
+    if !st.started || (f != "on" && f != "off") then (st, { modelObs := "badop" }) else
+    ({ st with fault := f == "on" }, { modelObs := "ok" })
   | ["alloc", ip] =>
     match st.started, parseHexBytes ip with
     | true, some w =>
       if w.length ≠ 4 then (st, { modelObs := "badop" }) else
       let key := goKey w
+      if st.fault && (AMap.lookup st.maps.subNat key).isNone then
+        -- the Put fails (or the pool is exhausted before it): an error, nothing written
+        match splitTokens impl with
+        | ["err", _] => (st, { modelObs := impl })
+        | _ => (st, { modelObs := "err kernel-write-failed" })
+      else
       match splitTokens impl with
       | ["ok"] =>
         (st, { modelObs := if (AMap.lookup st.maps.subNat key).isSome then "ok" else "badobs no-entry-written" })
@@ -147,6 +160,7 @@ def step (st : St) (toks : List String) (impl : String) : St × LineResult :=
       let key := goKey w
       let m := st.maps
       if (AMap.lookup m.subNat key).isNone then (st, { modelObs := "ok" }) else
+      if st.fault then ({ st with maps := NatKern.step m (.deallocFail key) }, { modelObs := "err kernel-write-failed" }) else
       let m' := release m key
       let gone (pfx : String) (before after : List String) : List String :=
         (sortStrings (before.filter fun k => !after.contains k)).map fun k => pfx ++ k
